@@ -11,8 +11,11 @@ for f in glob.glob(f'{V}/work/runall/*.log'):
             p, tier, seed, ev, di, kf, wall = m.groups()
             rows.setdefault(p, {}).setdefault(tier, []).append((int(seed), int(ev), int(di), float(wall)))
 out = ["<!-- S8-BEGIN -->",
-       "Measured on this machine (16 cores) during the final sweeps, three checks running at a time (so a single check run alone is",
-       "faster); `evaluations` / `distinct` are the evidence counters of one run.  Quick: range over the seeds swept.",
+       "Measured on this machine (16 cores) during the final sweeps of the later session (quick: seeds 1–6 on the final tree for all twenty, three to ten",
+       "checks at a time, seed 3 with all twenty at once while a thorough run was going, and seeds 7–9 for the ten checks with real-time or",
+       "probabilistic stages – so a single check run alone is faster; thorough: the last thorough log of each check – C03 C05 C08 C09 C10 C16 C18 from the",
+       "final tree, the others from the earlier session's sweep, whose changed checks were re-run clean at the thorough tier during the later",
+       "session at seed 1, and all twenty at seed 2); `evaluations` / `distinct` are the evidence counters of one run.  Quick: range over the seeds swept.",
        "",
        "| check | quick wall (s) | quick evaluations | quick distinct | seeds swept (quick) | thorough wall (s) | thorough evaluations |",
        "|---|---|---|---|---|---|---|"]
